@@ -26,6 +26,8 @@
 (*                 decoding went on: Unmarshal returns an error AND the    *)
 (*                 rest of the value is filled in                          *)
 (*    e = "hard"   decoding stopped there (return err)                     *)
+(*    e = "dc"     the case is outside what this specification models (see *)
+(*                 the list at Dec): nothing is claimed about the result   *)
 (* float64 values are named by a literal denoting them; which float64 that *)
 (* is (rounding) is outside this specification - the harness compares      *)
 (* numerically.  Only overflow (an error) is decided here.                 *)
@@ -53,7 +55,8 @@ GNilP(z) == [g |-> "ptr", nil |-> TRUE, v |-> z]
 GKV(k, v) == [k |-> k, v |-> v]
 
 R(v, e) == [v |-> v, e |-> e]
-Worse(a, b) == IF a = "hard" \/ b = "hard" THEN "hard" ELSE IF a = "saved" \/ b = "saved" THEN "saved" ELSE ""
+Worse(a, b) == IF a = "dc" \/ b = "dc" THEN "dc" ELSE IF a = "hard" \/ b = "hard" THEN "hard" ELSE IF a = "saved" \/ b = "saved" THEN "saved" ELSE ""
+Stops(e) == e = "hard" \/ e = "dc"
 
 Utf8Seq(cps) == FoldLeft(LAMBDA acc, c : acc \o Utf8(c), <<>>, cps)
 
@@ -75,8 +78,10 @@ Int64OK(s) ==
 IntOf(s) ==
   LET neg == s[1] = 45
       m   == NcStripLead(IF neg THEN Tail(s) ELSE s)
-  IN  IF Len(m) > 9 THEN Assert(FALSE, "the model keeps decoded integers within TLC's range")
-      ELSE IF neg THEN 0 - NcVal(m) ELSE NcVal(m)
+  IN  IF neg THEN 0 - NcVal(m) ELSE NcVal(m)
+\* TLC's integers are 32 bits wide: a decoded integer of more than nine digits is not represented ("dc")
+IntFits(s) == Len(NcStripLead(IF s[1] = 45 THEN Tail(s) ELSE s)) <= 9
+IntResult(cur, s) == IF ~(IsIntText(s) /\ Int64OK(s)) THEN R(cur, "saved") ELSE IF IntFits(s) THEN R(GI(IntOf(s)), "") ELSE R(cur, "dc")
 
 \* a JSON number literal too large for a float64 (decided away from the boundary: the universe
 \* has no literal between 1.7e308 and 1e309)
@@ -137,6 +142,8 @@ Iface(j, un) ==
 (* rules of typeFields never come into play.)                              *)
 (***************************************************************************)
 QuotableKind(v) == v.g \in {"bool", "int", "float", "str"}
+\* `,string` applies to bool, integer, float and string fields and to pointers to them (typeFields looks through ONE pointer)
+Quotable(v) == QuotableKind(v) \/ (v.g = "ptr" /\ QuotableKind(v.v))
 RECURSIVE FlatFields(_, _)
 FlatFields(f, pre) ==
   FoldLeft(LAMBDA acc, i :
@@ -145,7 +152,7 @@ FlatFields(f, pre) ==
              ELSE IF x.anon /\ x.v.g = "struct" /\ ~x.tagged THEN acc \o FlatFields(x.v.f, pre \o <<i>>)
              ELSE IF ~Exported(x.name) THEN acc
              ELSE Append(acc, [name |-> IF x.tname # <<>> THEN x.tname ELSE x.name, path |-> pre \o <<i>>,
-                               quoted |-> x.str /\ QuotableKind(x.v)]),
+                               quoted |-> x.str /\ Quotable(x.v)]),
            <<>>, [i \in 1..Len(f) |-> i])
 
 RECURSIVE GetF(_, _), SetF(_, _, _)
@@ -165,7 +172,9 @@ FieldFor(fl, key) ==      \* index into fl, 0 = no such field (the member is ski
 
 (***************************************************************************)
 (* literalStore(item, v, fromQuoted = TRUE): the `,string` option.  ft is  *)
-(* bool, int64, float64 or string.                                         *)
+(* bool, int64, float64 or string (DecQuoted), or a pointer to one of them *)
+(* (DecQuotedField: the pointer is allocated by indirect() only when the   *)
+(* content does not start like null, and BEFORE the content is judged).    *)
 (***************************************************************************)
 TrueText == <<116,114,117,101>>
 FalseText == <<102,97,108,115,101>>
@@ -184,11 +193,19 @@ DecQuoted(ft, cur, j) ==
               IF ~(p.ok /\ p.v.t = "str" /\ s[Len(s)] = 34) THEN R(cur, "hard")          \* unquoteBytes fails: return err
               ELSE IF ft.g = "str" THEN R(GS(Utf8Seq(p.v.cp)), "") ELSE R(cur, "saved")
        ELSE IF s[1] # 45 /\ ~DDigit(s[1]) THEN R(cur, "hard")
-       ELSE CASE ft.g = "int"   -> IF IsIntText(s) /\ Int64OK(s) THEN R(GI(IntOf(s)), "") ELSE R(cur, "saved")
-              [] ft.g = "float" -> IF ~IsJsonNumber(s)
-                                   THEN Assert(FALSE, "strconv.ParseFloat on text that is not a JSON number is not modelled")
+       ELSE CASE ft.g = "int"   -> IntResult(cur, s)
+              [] ft.g = "float" -> IF ~IsJsonNumber(s) THEN R(cur, "dc")     \* strconv.ParseFloat on text that is not a JSON number: not modelled
                                    ELSE IF FloatOverflow(s) THEN R(cur, "saved") ELSE R(GFl(s), "")
               [] OTHER          -> R(cur, "hard")       \* a number for a string or bool field: return err
+
+DecQuotedField(ft, cur, j) ==
+  IF ft.g # "ptr" THEN DecQuoted(ft, cur, j)
+  ELSE IF j.t = "null" THEN R(GNilP(ft.v), "")
+  ELSE IF j.t # "str" THEN R(cur, "saved")
+  ELSE LET s == Utf8Seq(j.cp) IN
+       IF s = <<>> THEN R(cur, "saved")
+       ELSE IF s[1] = 110 THEN (IF s = NullText THEN R(GNilP(ft.v), "") ELSE R(cur, "saved"))
+       ELSE LET r == DecQuoted(ft.v, IF cur.nil THEN ft.v ELSE cur.v, j) IN R(GP(r.v), r.e)
 
 (***************************************************************************)
 (* value / array / object / literalStore                                   *)
@@ -204,7 +221,7 @@ Dec(T, cur, j, un) ==
          IF T.g \in {"slice", "bytes", "map", "tslice", "tmap"} THEN R(T, "") ELSE R(cur, "")
     [] j.t = "bool" -> IF T.g = "bool" THEN R(GB(j.b), "") ELSE R(cur, "saved")
     [] j.t = "num" ->
-         CASE T.g = "int"   -> IF IsIntText(j.lit) /\ Int64OK(j.lit) THEN R(GI(IntOf(j.lit)), "") ELSE R(cur, "saved")
+         CASE T.g = "int"   -> IntResult(cur, j.lit)
            [] T.g = "float" -> IF FloatOverflow(j.lit) THEN R(cur, "saved") ELSE R(GFl(j.lit), "")
            [] OTHER         -> R(cur, "saved")
     [] j.t = "str" ->
@@ -212,43 +229,47 @@ Dec(T, cur, j, un) ==
            [] T.g = "bytes" -> LET b == B64Dec(Utf8Seq(j.cp)) IN IF b.ok THEN R(GBy(b.b), "") ELSE R(cur, "saved")
            [] OTHER         -> R(cur, "saved")
     [] j.t = "arr" ->
-         CASE T.g = "slice" ->      \* []interface{}: every element through literalStore/array/object with an interface target
-                LET st == FoldLeft(LAMBDA acc, x : IF acc.e = "hard" THEN acc
-                                                   ELSE LET r == Dec(GNil, GNil, x, un) IN R(Append(acc.v, r.v), Worse(acc.e, r.e)),
-                                   R(<<>>, ""), j.e)
-                IN  R(GSl(st.v), st.e)
-           [] T.g = "tslice" ->     \* elements decode into zero values (the target holds no elements: see MCGoDec)
-                IF cur.e # <<>> THEN Assert(FALSE, "decoding over the elements of an existing slice is not modelled")
-                ELSE LET st == FoldLeft(LAMBDA acc, x : IF acc.e = "hard" THEN acc
-                                                        ELSE LET r == Dec(T.z, T.z, x, un) IN R(Append(acc.v, r.v), Worse(acc.e, r.e)),
-                                        R(<<>>, ""), j.e)
-                     IN  R(GTSl(T.z, st.v), st.e)
-           [] T.g = "bytes" -> Assert(FALSE, "an array of numbers into []byte is not modelled")
+         CASE T.g \in {"slice", "tslice"} ->
+                \* []interface{} / []T.  Element i is decoded into the element the slice already holds at i (a repeated member
+                \* name meets what the first occurrence left; a remembered error leaves that element as it was), into a zero
+                \* value beyond.  A hard error returns before the slice is cut to its new length.  Growing a non-empty slice
+                \* re-exposes whatever an even earlier, longer decode left in its capacity: not modelled.
+                LET z == IF T.g = "slice" THEN GNil ELSE T.z
+                    mk(es) == IF T.g = "slice" THEN GSl(es) ELSE GTSl(T.z, es)
+                IN
+                IF cur.e # <<>> /\ Len(j.e) > Len(cur.e) THEN R(cur, "dc")
+                ELSE LET st == FoldLeft(LAMBDA acc, i : IF Stops(acc.e) THEN acc
+                                                        ELSE LET r == Dec(z, IF i <= Len(cur.e) THEN cur.e[i] ELSE z, j.e[i], un) IN
+                                                             R(Append(acc.v, r.v), Worse(acc.e, r.e)),
+                                        R(<<>>, ""), [i \in 1..Len(j.e) |-> i])
+                     IN  IF st.e = "hard" THEN R(mk(st.v \o SubSeq(cur.e, Len(st.v) + 1, Len(cur.e))), "hard")
+                         ELSE R(mk(st.v), st.e)
+           [] T.g = "bytes" -> R(cur, "dc")          \* an array of numbers into []byte: not modelled
            [] OTHER -> R(cur, "saved")
     [] OTHER ->                     \* j is an object
          CASE T.g = "map" ->        \* map[string]interface{}: created when nil, merged into otherwise
-                LET st == FoldLeft(LAMBDA acc, mem : IF acc.e = "hard" THEN acc
+                LET st == FoldLeft(LAMBDA acc, mem : IF Stops(acc.e) THEN acc
                                                      ELSE LET r == Dec(GNil, GNil, mem.v, un) IN
-                                                          IF r.e = "hard" THEN R(acc.v, "hard")
+                                                          IF Stops(r.e) THEN R(acc.v, r.e)
                                                           ELSE R(SetKey(acc.v, Utf8Seq(mem.k), r.v), Worse(acc.e, r.e)),
                                    R(cur.m, ""), j.m)
                 IN  R(GMp(st.v), st.e)
            [] T.g = "tmap" ->       \* every value is decoded into a fresh zero element
-                LET st == FoldLeft(LAMBDA acc, mem : IF acc.e = "hard" THEN acc
+                LET st == FoldLeft(LAMBDA acc, mem : IF Stops(acc.e) THEN acc
                                                      ELSE LET r == Dec(T.z, T.z, mem.v, un) IN
-                                                          IF r.e = "hard" THEN R(acc.v, "hard")
+                                                          IF Stops(r.e) THEN R(acc.v, r.e)
                                                           ELSE R(SetKey(acc.v, Utf8Seq(mem.k), r.v), Worse(acc.e, r.e)),
                                    R(cur.m, ""), j.m)
                 IN  R(GTMp(T.z, st.v), st.e)
            [] T.g = "struct" ->     \* every member whose name matches a field decodes into what that field holds NOW
                 LET fl == FlatFields(T.f, <<>>) IN
                 FoldLeft(LAMBDA acc, mem :
-                           IF acc.e = "hard" THEN acc
+                           IF Stops(acc.e) THEN acc
                            ELSE LET idx == FieldFor(fl, mem.k) IN
                                 IF idx = 0 THEN acc
                                 ELSE LET fd == fl[idx]
                                          ft == GetF(T, fd.path)
-                                         r  == IF fd.quoted THEN DecQuoted(ft, GetF(acc.v, fd.path), mem.v)
+                                         r  == IF fd.quoted THEN DecQuotedField(ft, GetF(acc.v, fd.path), mem.v)
                                                ELSE Dec(ft, GetF(acc.v, fd.path), mem.v, un)
                                      IN  R(SetF(acc.v, fd.path, r.v), Worse(acc.e, r.e)),
                          R(cur, ""), j.m)
@@ -259,6 +280,32 @@ Dec(T, cur, j, un) ==
 \* A Decoder does so only after UseNumber(); otherwise it stores float64 like encoding/json.
 Unmarshal(T, j) == Dec(T, T, j, TRUE)
 DecoderDecode(T, j) == Dec(T, T, j, FALSE)
+
+(***************************************************************************)
+(* Equality of Go values as an observer sees them: map entries in any      *)
+(* order, float64 by numeric value, type descriptions (z, field tags) not  *)
+(* looked at.  Used to compare a recorded result with the specification's. *)
+(***************************************************************************)
+\* a literal of at most 15 significant digits within the normal range of float64 is recovered exactly by printing the
+\* float64 it rounds to; other literals are not compared (which float64 a literal rounds to is outside this specification)
+FloatComparable(lit) ==
+  LET c == NumClass(lit) IN
+  c.zero \/ (c.big = <<>> /\ Len(c.d) <= 15 /\ Len(c.d) + c.e > 0 - 290 /\ Len(c.d) + c.e < 290)
+RECURSIVE GoSame(_, _)
+GoSame(a, b) ==
+  /\ a.g = b.g
+  /\ CASE a.g = "nil"    -> TRUE
+        [] a.g = "bool"   -> a.b = b.b
+        [] a.g = "int"    -> a.i = b.i
+        [] a.g = "float"  -> (~FloatComparable(a.lit) \/ ~FloatComparable(b.lit)) \/ NumClass(a.lit) = NumClass(b.lit)
+        [] a.g = "number" -> a.lit = b.lit
+        [] a.g = "str"    -> a.bytes = b.bytes
+        [] a.g = "bytes"  -> a.nil = b.nil /\ a.b = b.b
+        [] a.g \in {"slice", "tslice"} -> a.nil = b.nil /\ Len(a.e) = Len(b.e) /\ \A i \in 1..Len(a.e) : GoSame(a.e[i], b.e[i])
+        [] a.g \in {"map", "tmap"}     -> /\ a.nil = b.nil /\ Len(a.m) = Len(b.m)
+                                          /\ \A i \in 1..Len(a.m) : \E k \in 1..Len(b.m) : a.m[i].k = b.m[k].k /\ GoSame(a.m[i].v, b.m[k].v)
+        [] a.g = "ptr"    -> a.nil = b.nil /\ (~a.nil => GoSame(a.v, b.v))
+        [] OTHER          -> Len(a.f) = Len(b.f) /\ \A i \in 1..Len(a.f) : GoSame(a.f[i].v, b.f[i].v)
 
 (***************************************************************************)
 (* the static type is kept: the result of decoding into a T is a T         *)
